@@ -11,7 +11,7 @@
 extern "C" {
 #endif
 
-#define VRT_MAX_THREADS 8
+#define VRT_MAX_THREADS 16
 
 struct vrt_scenario {
 	const char *name;
@@ -47,6 +47,10 @@ void vrt_await(int (*pred)(void *), void *arg);
 void vrt_yield(void);
 /* id of the calling thread (0 = scenario main thread) */
 int vrt_tid(void);
+/* pthread_create for the harness's own threads: never subject to the pthread_create fault menu */
+int vrt_pthread_create_nf(pthread_t *t, const pthread_attr_t *a, void *(*fn)(void *), void *arg);
+/* number of threads created so far in this execution (including the main thread) */
+int vrt_thread_count(void);
 /* printed only when replaying verbosely */
 void vrt_log(const char *fmt, ...) __attribute__((format(printf, 1, 2)));
 /* harness-level reclamation: block goes to quarantine, any later access is a violation */
